@@ -156,6 +156,35 @@ func parkedCounts() (clientSend, pollRecv, answerSend int, excerpt string) {
 
 var parkMu sync.Mutex
 
+// mutexParked: broker goroutines found waiting for a mutex in each of three
+// goroutine dumps taken two seconds apart (the same goroutine each time). No
+// lock of the broker is held across anything that waits, so in a broker that
+// works a handler is in that state for microseconds.
+func mutexParked() (n int, excerpt string) {
+	seen := map[string]int{}
+	var last []vlib.Goroutine
+	for k := 0; k < 3; k++ {
+		if k > 0 {
+			time.Sleep(2 * time.Second)
+		}
+		last = vlib.ParseDump(vlib.DumpAll())
+		for _, g := range last {
+			if (strings.HasPrefix(g.State, "sync.Mutex.Lock") || strings.HasPrefix(g.State, "sync.RWMutex") || strings.HasPrefix(g.State, "semacquire")) && g.HasFrame("snowflake.git/v2/broker.") {
+				seen[g.ID]++
+			}
+		}
+	}
+	for _, g := range last {
+		if seen[g.ID] == 3 {
+			n++
+			if len(excerpt) < 4000 {
+				excerpt += g.Raw + "\n"
+			}
+		}
+	}
+	return
+}
+
 // judgeOpen decides about requests still open after all protocol timers that
 // could release them have long fired: stuck (violation) iff the goroutine dump
 // shows at least as many goroutines parked for good at the matching place.
@@ -186,6 +215,15 @@ func judgeOpen(res *vlib.Result, scenario string, tr *tracker, rec map[string]in
 		stuck = append(stuck, "answer@answer-send")
 	}
 	if len(stuck) == 0 {
+		parkMu.Lock()
+		nlock, lx := mutexParked()
+		parkMu.Unlock()
+		if nlock >= 2 {
+			rec["goroutines_parked_on_a_mutex"] = nlock
+			rec["goroutines"] = lx
+			res.Violate("c04:stuck:handlers-parked-on-mutex", fmt.Sprintf("%s: %v requests never complete; %d broker goroutines wait for a mutex in three dumps taken 2 s apart", scenario, kinds, nlock), rec)
+			return
+		}
 		res.Inconcl(fmt.Sprintf("%s: %v still open but no goroutine parked for good at a broker frame", scenario, kinds))
 		return
 	}
